@@ -1018,7 +1018,7 @@ impl<'l> CelCompiler<'l> {
                             )
                             .into()]));
 
-                        member_prime_node = self.check_for_const(member_prime_node, args_len);
+                        member_prime_node = self.check_for_const(member_prime_node);
 
                         member_prime_ast.push(AstNode::new(
                             MemberPrime::Call {
@@ -1438,19 +1438,17 @@ impl<'l> CelCompiler<'l> {
     }
 
     #[inline]
-    fn check_for_const(&self, member_prime_node: CompiledProg, args_len: usize) -> CompiledProg {
+    fn check_for_const(&self, member_prime_node: CompiledProg) -> CompiledProg {
         let mut i = Interpreter::empty();
         i.add_bindings(&self.bindings);
         // the identifiers read by the callee, receiver and arguments stay reported
         let details = member_prime_node.details().clone();
         let bc = member_prime_node.into_unresolved_bytecode().resolve();
 
-        // A call without arguments has no constant input to fold and may read
-        // the clock (now(), timestamp()); it is evaluated at every execution.
-        if args_len == 0 {
-            return CompiledProg::new(NodeValue::Bytecode(bc.into()), details);
-        }
-
+        // now() and timestamp() fail while the guard is alive, so a call that
+        // reads the clock (directly, in an argument or in a macro body) is not
+        // a constant and is evaluated at every execution instead.
+        let _no_clock = crate::utils::clock::forbid_clock();
         let r = i.run_raw(&bc, true);
 
         match r {
